@@ -311,7 +311,26 @@ func init() {
 		if err := json.Unmarshal(data, &c); err != nil {
 			return false, "", err
 		}
+		if c.Cfg.FileDir != "" {
+			// persistent-store cases carry the scratch paths of the run that found them: give the replay its own
+			dir, cleanup := core.Scratch("c03r")
+			defer cleanup()
+			c.Cfg.FileDir = dir
+			if c.Cfg.SQLTemplate != "" {
+				tmpl, err := sqliteTemplateDB()
+				if err != nil {
+					return false, "", err
+				}
+				c.Cfg.SQLTemplate = dir + "/template.db"
+				if err := os.WriteFile(c.Cfg.SQLTemplate, tmpl, 0o644); err != nil {
+					return false, "", err
+				}
+			}
+		}
 		r, w, err := c03Eval(c)
+		if len(w) > 1500 {
+			w = w[:1500] + "..."
+		}
 		return r != "", r + ": " + w, err
 	})
 }
